@@ -55,6 +55,12 @@ CLAIMED.update({
  'C19': dict(tech=COD + '; operation sequences replayed on a TLA+ model of the registry', text='Listed, Format, Unique, Keyed (type name = DPT_<main><sub>), Complete (every exported DPT_* type found by go/parser is produced by some name), UnknownRejected (near misses + 1000 seeded strings), FreshZero and Independent (random Produce/Unpack/Read sequences over 2 types x up to 4 instances replayed by TLC on spec/Registry.tla; 16 goroutines x 400 operations, under the race detector in the thorough tier).',
    note='known finding C19-F1: the name "14.1200".'),
 })
+CLAIMED.update({
+ 'C16': dict(tech='model checking (TLC) of Sock.tla (every segmentation, incl. liveness) + TLA+ judgement of records from real loopback sockets', text='Real DialTunnelUDP / DialTunnelTCP sockets against scripted loopback peers: streams of 1..50 frames of every service type (8 bytes .. 60 KiB), every single cut position, 1-byte dribble and seeded coalescing on TCP; datagram sizes around and beyond 1 KiB on UDP; 1/2/8 concurrent senders; Close with unread frames pending, peer close; NewTunnel with SendLocalAddress on/off x UDP/TCP. TLC judges InOrderOnce, SendAtomic, ClosedAfter (Inbound closed and receiver goroutine gone), HpaiAdvertised.',
+   note='kernel TCP coalescing cannot be forced; goroutine census by runtime.Stack.'),
+ 'C20': dict(tech='model checking (TLC) of Lookup.tla + TLA+ judgement of records from real loopback / multicast sockets', text='DescribeTunnel and Discover against scripted responders (immediate, late, never, repeated, other services / malformed frames first, floods, 0..21 responders) for timeouts 1..60 ms (thorough: ..500 ms): FirstMatch / AllMatches with the deadline-ambiguity rule, ReturnBound, OneRequest, DescribeHpai, SocketReleased.',
+   note='wall-clock bounds carry 25 ms slack; multicast needs a usable interface (else the discovery half is skipped, not failed).'),
+})
 NA = {}
 for p in props:
     if p['id'] not in CLAIMED:
